@@ -12,7 +12,7 @@ RULE = ("isvalidaa / isvalidcdr3 on every string up to length 4 over {C,A,F,W,x,
         "non-trivial = a cell that standardisation changes / a key present in only some tables")
 ASSUMPTIONS = ["tidytcells is the oracle for what a cell standardises to (property wording); what is decided is option routing, cell locality and input preservation",
                "without suffixes the value columns of the tables have distinct names (pandas would otherwise add its own _x/_y suffixes)"]
-REQUIRED_CLASSES = {"all": ["rotating-col_mapper", "object-dtype-table", "df_old-keyword", "same-text-in-tr-and-mhc-column", "empty-string", "non-string-object", "missing-cell", "junk-cell", "option-sensitive-cell", "col_mapper", "shifted-index", "extra-column", "merge-on-column", "merge-suffixes", "merge-partial-keys", "merge-repeated-keys", "merge-identical-sorted-key-sequences", "merge-index-named-like-key-column"]}
+REQUIRED_CLASSES = {"all": ["rotating-col_mapper", "object-dtype-table", "df_old-keyword", "same-text-in-tr-and-mhc-column", "empty-string", "non-string-object", "missing-cell", "junk-cell", "option-sensitive-cell", "col_mapper", "shifted-index", "extra-column", "merge-on-column", "merge-suffixes", "merge-partial-keys", "merge-repeated-keys", "merge-identical-sorted-key-sequences", "merge-index-named-like-key-column", "merge-table-without-rows", "table-without-rows"]}
 MIN_OUTCOMES = 10
 AA = set("ACDEFGHIKLMNPQRSTVWY")
 
@@ -87,6 +87,10 @@ def spaces(tier):
                     continue
                 for o in opt_star():
                     yield ("rows", (cols, tab), o)
+        # tables without any row (an empty selection): still renamed, still zero rows
+        for cols0 in (("TRAV",), ("TRAV", "CDR3A"), cols):
+            for o in opt_star():
+                yield ("rows", (cols0, ()), o)
 
     def gen_merge():
         keysets = [ks for ks in E.subsets((1, 2, 3, 4), 1)]
@@ -99,7 +103,7 @@ def spaces(tier):
                     continue
                 yield ("merge", ks)
         # tables in which a key occurs more than once (a relational join pairs every row with every row of that key)
-        L = ((1, 1, 2), (1, 2, 2), (2, 1, 1), (1, 1), (1, 3), (1, 1, 2, 2))
+        L = ((1, 1, 2), (1, 2, 2), (2, 1, 1), (1, 1), (1, 3), (1, 1, 2, 2), ())       # () = a table without rows
         for nt in (2, 3):
             for ks in itertools.product(L, repeat=nt):
                 if nt == 3 and sum(map(sum, ks)) % 3 != 1:
@@ -218,6 +222,8 @@ def _check_rows(acc, case):
     if multi:
         df.index = range(20, 20 + n)
         acc.cls("shifted-index")
+    if n == 0:
+        acc.cls("table-without-rows")
     snapshot = df.copy(deep=True)
     kw = {k: v for k, v in o.items() if k != "mapper"}
     if o["mapper"]:
@@ -281,6 +287,8 @@ def _check_merge_dup(acc, case):
     keylists = case[1]
     nt = len(keylists)
     acc.cls("merge-repeated-keys")
+    if any(len(kl) == 0 for kl in keylists):
+        acc.cls("merge-table-without-rows")
     if all(k == keylists[0] for k in keylists) and list(keylists[0]) == sorted(keylists[0]):
         acc.cls("merge-identical-sorted-key-sequences")
     vals = [[100 * ti + 10 * pos + k for pos, k in enumerate(kl)] for ti, kl in enumerate(keylists)]
@@ -292,9 +300,9 @@ def _check_merge_dup(acc, case):
                     for ti, kl in enumerate(keylists):
                         vname = "v" if suff else "v%d" % ti
                         if on == "index":
-                            d = pd.DataFrame({vname: vals[ti]}, index=pd.Index(list(kl)))
+                            d = pd.DataFrame({vname: pd.Series(vals[ti], dtype="int64").values}, index=pd.Index(list(kl), dtype="int64"))
                         else:
-                            d = pd.DataFrame({on: list(kl), vname: vals[ti]})
+                            d = pd.DataFrame({on: pd.Series(list(kl), dtype="int64"), vname: pd.Series(vals[ti], dtype="int64")})
                             if named_index:
                                 # the table still carries an (unrelated) index that happens to be named like the key column
                                 acc.cls("merge-index-named-like-key-column")
